@@ -112,7 +112,7 @@ class Client:
         self.outcome = None
         self.thread = threading.Thread(target=self._run, args=(fn,), daemon=True)
         self.thread.start()
-        self.parked.acquire()
+        self._wait()
         self._reap()
 
     def _run(self, fn):
@@ -141,16 +141,20 @@ class Client:
         if not self.alive:
             raise _Expired()
 
+    def _wait(self):
+        if not self.parked.acquire(timeout=60):
+            raise RuntimeError('client thread %d did not yield' % self.idx)
+
     def step(self):
         self.go.release()
-        self.parked.acquire()
+        self._wait()
         self._reap()
 
     def kill(self):
         self.alive = False
         if self.busy:
             self.go.release()
-            self.parked.acquire()
+            self._wait()
             self._reap()
 
     # ---- bookkeeping
@@ -543,9 +547,10 @@ def oracle(case, obs):
 
 
 def nontrivial(case, obs):
-    """two sessions met on one path: some create found the node existing, or some get saw a foreign owner"""
-    return any((e['op'] == 'create' and not e['ok']) or (e['op'] == 'get' and e['ok'] and e['owner_before'] != e['sid'])
-               for e in obs['oplog'])
+    """two sessions met on one path (a get saw a foreign owner) AND a node went away (successful delete or expiry)"""
+    met = any(e['op'] == 'get' and e['ok'] and e['owner_before'] != e['sid'] for e in obs['oplog'])
+    gone = any(e['op'] == 'delete' and e['ok'] for e in obs['oplog']) or any(a[0] == 'expire' for a in obs['actions'])
+    return met and gone
 
 
 def _extra(_r, cases, obs):
@@ -607,7 +612,7 @@ def run(tier, seed):
                 'instance (running + 0-2 endpoints + optional identity), re-evaluate / retry a pending one, delete an old '
                 'container, perform ONE pending ZooKeeper call of a client, expire a session, restart a service; a third of the '
                 'cases start from a stale state (nodes owned by either session, entries in the local maps); non-trivial = two '
-                'sessions met on one path (create found the node, or a get saw a foreign owner)',
+                'sessions met on one path (a get saw a foreign owner) and a node went away (successful delete or expiry)',
         'trusted': TRUSTED, 'assumptions': ASSUMPTIONS, 'anchors': ANCHORS, 'extra': _extra,
     })
 
